@@ -796,3 +796,29 @@ def spine_family(L):
                 fam.append(dict(name="depth%d %s [%s]" % (depth, inner_name, seq_name(s)), bytes=bs, toks=s, outcome=o, truncs=sorted(set(bounds)), in_S=False,
                                 nheads=len(s), status="complete" if o.ok else "error", k=0, depth=depth))
     return fam
+
+
+def huge_family():
+    """Declared counts / lengths near 2^32 and 2^60..2^64 (C01/C20): the table or payload cannot exist; the decoder must fail
+    cleanly (MEMERROR or NOTENOUGHDATA) without ever under-allocating."""
+    Z = [0] * 7
+    raws = {
+        "map_2^60_pairs": [0xbb, 0x10] + Z + [0x01, 0x02],
+        "map_2^60+1_pairs": [0xbb, 0x10] + Z[:6] + [0x01, 0x01, 0x02, 0x03, 0x04],
+        "map_2^63_pairs": [0xbb, 0x80] + Z + [0x01],
+        "map_2^64-1_pairs": [0xbb] + [0xff] * 8 + [0x00, 0x00],
+        "array_2^61": [0x9b, 0x20] + Z + [0x01],
+        "array_2^61+2": [0x9b, 0x20] + Z[:6] + [0x02, 0x01, 0x02],
+        "array_2^64-1": [0x9b] + [0xff] * 8 + [0x00],
+        "array_2^32-1": [0x9a, 0xff, 0xff, 0xff, 0xff, 0x00],
+        "map_2^32": [0xbb, 0, 0, 0, 1, 0, 0, 0, 0, 0x00, 0x00],
+        "bytes_2^64-1": [0x5b] + [0xff] * 8 + [SYM],
+        "text_2^63": [0x7b, 0x80] + Z + [SYM, SYM],
+        "tagged_map_2^60": [0xd8, SYM, 0xbb, 0x10] + Z + [0x01, 0x02],
+        "in_indef_array_map_2^60": [0x9f, 0xbb, 0x10] + Z + [0x01, 0x02, 0xff],
+        "chunk_2^62_in_chunked": [0x5f, 0x5b, 0x40] + Z + [SYM],
+    }
+    fam = []
+    for name, bs in raws.items():
+        fam.append(dict(name="huge:" + name, bytes=bs, toks=[tok("raw", bytes=bs)], outcome=Outcome(False, allowed={(E_MEMERROR, 0)}), truncs=[len(bs)], in_S=False, nheads=1, status="error", k=0))
+    return fam
